@@ -22,6 +22,7 @@ fn setup(ctx: &mut Ctx) {
     ctx.floor("truncated-last-record", 200);
     ctx.floor("trailing-garbage", 200);
     ctx.floor("ambiguous-zone", 1);
+    ctx.floor("iterator-protocol:iterators", 500);
     ctx.floor("via:slice:section", 500);
     ctx.floor("via:slice:segment", 500);
     ctx.floor("via:stream:section", 500);
@@ -144,6 +145,17 @@ pub fn check_iteration<'a, I: Iterator<Item = Note<'a>>>(ctx: &mut Ctx, via: &st
 pub fn standalone(ctx: &mut Ctx, enc: Enc, align: u64, data: &[u8], any: bool) {
     let class = class_of(enc);
     let al = align as usize;
+    // whatever Iterator entry point drives the iteration, the notes are those next() yields
+    let ok = if !ctx.rng.chance(1, 8) {
+        true
+    } else if enc.big {
+        super::util::iter_protocol(ctx, "NoteIterator", || NoteIterator::new(BigEndian, class, al, data), |x| format!("{x:?}"), data.len() / 12 + 3, false)
+    } else {
+        super::util::iter_protocol(ctx, "NoteIterator", || NoteIterator::new(LittleEndian, class, al, data), |x| format!("{x:?}"), data.len() / 12 + 3, false)
+    };
+    if !ok {
+        return;
+    }
     match (any, enc.big) {
         (true, false) => check_iteration(ctx, "NoteIterator", false, align, data, NoteIterator::new(AnyEndian::Little, class, al, data)),
         (true, true) => check_iteration(ctx, "NoteIterator", true, align, data, NoteIterator::new(AnyEndian::Big, class, al, data)),
